@@ -2,12 +2,14 @@ import Dm.Driver.FmtCmd
 import Dm.Driver.FmtXCmd
 import Dm.Driver.SplitCmd
 import Dm.Driver.ErrCmd
+import Dm.Driver.TfCmd
 
 /- Line-protocol driver of the Lean model: one request per line, one answer per line. -/
 
 def handle (line : String) : String :=
   let l := line.trimAscii.toString
   if l.startsWith "fx " then Dm.FmtXCmd.cmdFx (l.drop 3).toString else
+  if l.startsWith "tf " then Dm.TfCmd.cmdTf (l.drop 3).toString else
   if l.startsWith "sp " then Dm.SplitCmd.cmdSplit (l.drop 3).toString else
   match l.splitOn " " with
   | "fmt" :: args => Dm.FmtCmd.cmdFmt args
